@@ -355,6 +355,12 @@ def evaluate(chk, v, suffixes):
                     chk.broken("%s: test vector fill: %s" % (f.name, det6))
                 if st6 == "refuted":
                     ok6, why6 = False, "the fill does not reach every coefficient: %s (n = N)" % det6
+            if ok6 and tv[0]["guards"] and tv[0]["guards"] != br[0]["guards"] and \
+                    any(a_[0] == "glob" for g_ in tv[0]["guards"] for a_ in sym.atoms(g_)):
+                # a test vector kept between calls and refilled on demand: whether it holds mu when the fill is skipped is an
+                # invariant of the cache over call histories (what the guard's static cells hold), not a fact of one call
+                chk.broken("%s: the test vector is kept between calls and filled only when %s: whether it holds mu on every call is an "
+                           "invariant of that cache over call histories, not decided" % (f.name, " && ".join(sym.show(g) for g in tv[0]["guards"])[:200]))
             if ok6 and tv[0]["guards"] and tv[0]["guards"] != br[0]["guards"]:
                 # (a fill under exactly the conditions of its consumer, e.g. after the early return of a shortcut path, is complete)
                 ok6 = False
